@@ -77,18 +77,20 @@ BadPorts == {65536, 70000}
 IPCases(A, M, P, N) == {[form |-> "ip", a |-> a, mask |-> m, port |-> p, net |-> n] : a \in A, m \in M, p \in P, n \in N}
 TupleCases(A, P) == {[form |-> "tuple", a |-> a, port |-> p, spell |-> sp] : a \in A, p \in P, sp \in {"str", "int"}}
 Raw6Cases(A, P) == {[form |-> "raw", octets |-> a \o PortOctets(p), spell |-> "bytes"] : a \in A, p \in P}
-G_ip(th) ==
-    << IPCases(AddrsQuick, Masks, Ports \cup {NoPort}, {NoNet, 1}) \cup
-       IPCases({<<1, 2, 3, 4>>, <<255, 255, 255, 255>>}, {NoMask, 0, 24}, BadPorts, {NoNet, 1}) \cup       \* port does not fit 16 bits
-       IPCases({<<1, 2, 3, 4>>, <<255, 255, 255, 255>>}, {33, 34, 64}, {NoPort, 47808}, {NoNet, 1}) \cup    \* no such mask
+G_ip(th) ==      \* (big sets are separate parts: TLC's union of two big sets is quadratic)
+    << IPCases(AddrsQuick, Masks, Ports \cup {NoPort}, {NoNet, 1}),
+       IPCases({<<1, 2, 3, 4>>, <<255, 255, 255, 255>>}, {NoMask, 0, 24}, BadPorts, {NoNet, 1}),       \* port does not fit 16 bits
+       IPCases({<<1, 2, 3, 4>>, <<255, 255, 255, 255>>}, {33, 34, 64}, {NoPort, 47808}, {NoNet, 1}),    \* no such mask
        IPCases({<<1, 2, 3, 256>>, <<256, 0, 0, 1>>, <<1, 300, 0, 1>>}, {NoMask, 24}, {NoPort}, {NoNet, 1}), \* not an octet
-       TupleCases(AddrsQuick, Ports) \cup TupleCases({<<1, 2, 3, 4>>}, BadPorts \cup {-1}) \cup
+       TupleCases(AddrsQuick, Ports),
+       TupleCases({<<1, 2, 3, 4>>}, BadPorts \cup {-1}),
        {[form |-> "tuple", a |-> <<0, 0, 0, 0>>, port |-> p, spell |-> "empty"] : p \in Ports},
        Ctor2(1, TupleCases({<<10, 0, 1, 2>>}, Ports \cup BadPorts)),
        Raw6Cases(AddrsQuick, Ports),
-       IF th THEN IPCases(AddrsAll, 0..32, {NoPort}, {NoNet}) \cup IPCases(AddrsAll, {NoMask}, Ports, {NoNet, 65534}) ELSE {},
-       IF th THEN TupleCases(AddrsAll, {47808, 65535}) ELSE {},
-       IF th THEN Raw6Cases(AddrsAll, {47808, 47824}) ELSE {} >>
+       IF th THEN IPCases(AddrsAll \ AddrsQuick, 0..32, {NoPort}, {NoNet}) ELSE {},
+       IF th THEN IPCases(AddrsAll \ AddrsQuick, {NoMask}, Ports, {NoNet, 65534}) ELSE {},
+       IF th THEN TupleCases(AddrsAll \ AddrsQuick, {47808, 65535}) ELSE {},
+       IF th THEN Raw6Cases(AddrsAll \ AddrsQuick, {47808, 47824}) ELSE {} >>
 
 \* ---- octet strings of length 1..7 as raw octets, 0x.., X'..', with and without network, through every constructor
 RECURSIVE Strings(_, _)
@@ -104,7 +106,7 @@ OctetStrings(th) ==
 RawOf(O, sp) == {[form |-> "raw", octets |-> o, spell |-> sp] : o \in O}
 G_octets(th) ==
     LET O == OctetStrings(th) IN
-    << RawOf(O, "bytes") \cup RawOf(O, "bytearray"),
+    << RawOf(O, "bytes"), RawOf(O, "bytearray"),
        {[form |-> f, octets |-> o, net |-> n, uc |-> u] : f \in {"hex", "xquote"}, o \in O, n \in {NoNet, 65534}, u \in {0, 1}},
        Ctor2(1, RawOf(O, "bytes")),
        Ctor2(1, {[form |-> "hex", octets |-> o, net |-> NoNet] : o \in O}),
@@ -181,7 +183,7 @@ Parts == CASE Grid = "stations" -> G_stations(Thorough)
            [] Grid = "pool"     -> G_pool(Thorough)
 
 Vector(x) == [d |-> x, den |-> Denotes(x), pr |-> IF IsRefused(Denotes(x)) THEN [form |-> "none"] ELSE Printed(Denotes(x))]
-PartVectors(S) == LET s == SetToSeq(S) IN [k \in 1..Len(s) |-> Vector(s[k])]
+PartVectors(S) == SetToSeq({Vector(x) : x \in S})
 RECURSIVE AllVectors(_)
 AllVectors(k) == IF k = 0 THEN <<>> ELSE AllVectors(k - 1) \o PartVectors(Parts[k])
 ASSUME "OUT_FILE" \in DOMAIN IOEnv => ndJsonSerialize(IOEnv.OUT_FILE, AllVectors(Len(Parts)))
